@@ -184,6 +184,34 @@ def peer_over_the_wire(ctx, addr):
             ctx.traces_validated += 1
 
 
+def colliding_first_announcements(ctx, thorough):
+    """'all interleavings': two exporters whose (address, template id) pairs share one cache key announce their templates for
+    the first time at the same moment (two decoders released together), on a fresh cache, thousands of times; afterwards
+    the cache answers for both."""
+    import os
+    from props import c10
+    for proto in ("ipfix", "v9"):
+        drv = c10.build(ctx, proto, race=False)
+        out = os.path.join(ctx.subdir("c04collide_" + proto), "collide.json")
+        ce = fnv.find_exporters(ctx.rng, 16 if ctx.seed % 2 else 4)
+        pair = "%s;%s;%d" % (".".join(map(str, ce["ea"])), ".".join(map(str, ce["eb"])), 256 + ctx.seed % 7)
+        rc, log, to = ctx.go_run(drv, "TestVerifStorm", timeout=600,
+                                 env={"VERIF_OUT": out, "VERIF_STORM_PART": "collide", "VERIF_COLLIDE": pair,
+                                      "VERIF_COLLIDE_ROUNDS": 200000 if thorough else 40000, "VERIF_HANG_S": 300})
+        if to or rc != 0 or not os.path.exists(out):
+            raise vlib.Infra("storm driver (colliding announcements) failed:\n" + log[-1500:])
+        r = json.load(open(out))
+        ctx.count([proto, "colliding-first-announcements", ctx.seed])
+        if not r.get("collide_rounds"):
+            raise vlib.Infra("no colliding pair of exporters found by the driver")
+        if r["collide_lost"]:
+            ctx.violation("%s: two exporters whose (address, template id) pairs share one cache key announced their templates for the first "
+                          "time at the same moment, on a fresh cache, %d times: %d times one of the two templates was gone afterwards"
+                          % (codec.P[proto]["name"], r["collide_rounds"], r["collide_lost"]), {"proto": proto}, key=proto + ":collide-at-once")
+        ctx.extra.setdefault("colliding_first_announcements", {})[proto] = {"rounds": r["collide_rounds"], "lost": r["collide_lost"]}
+        ctx.traces_validated += 1
+
+
 def job_merged(proto, hist, addr, cuts=(), noise=0):
     """the same history with every maximal run of consecutive datagram operations of one exporter sent as ONE
     message holding several sets ('announced earlier in the same message'); cuts: operation indices at which a new
@@ -395,6 +423,7 @@ def check(ctx):
         ctx.traces_validated += len(njobs)
     ctx.sample({"history": hists[len(hists) // 2], "exporters": a4})
     peer_over_the_wire(ctx, a4)
+    colliding_first_announcements(ctx, thorough)
     # ---- B: interleaved multi-exporter histories validated by the reference collector
     for proto in ("ipfix", "v9"):
         drv = codec.driver(ctx, proto)
